@@ -346,8 +346,7 @@ def combine1fiber(inloglam, objflux, newloglam, objivar=None, verbose=False,
     # Grow regions where 3 or more pixels are rejected together ???
     #
     foo = smooth(newivar, 3)
-    badregion = np.absolute(foo) < EPS
-    # badregion = foo == 0.0
+    badregion = foo == 0.0
     if badregion.any():
         warn('Growing bad pixel region, {0:d} pixels found.'.format(badregion.sum()),
              Pydlspec2dUserWarning)
